@@ -210,7 +210,11 @@ def mxint2bitstore(f: Union[str, float]) -> BitStore:
 
 
 def int2bitstore(i: int, length: int, signed: bool) -> BitStore:
-    i = int(i)
+    try:
+        i = int(i)
+    except OverflowError:
+        # For example float('inf')
+        raise bitstring.CreationError(f"{i} can't be converted to an integer.")
     try:
         x = BitStore(bitarray.util.int2ba(i, length=length, endian='big', signed=signed))
     except OverflowError as e:
